@@ -5,22 +5,36 @@
 (* lib/src/quic_multiplexer.rs, lib/src/http3_codec.rs), the QUIC sibling  *)
 (* of Endpoint.tla:                                                        *)
 (*                                                                         *)
-(*   Established (handshake completed by the multiplexer: peer address and *)
-(*   the client random of THAT handshake are known)                        *)
+(*   ClientHello (the client's first flight: its TLS ClientHello, carried  *)
+(*   as CRYPTO data in 1 .. n Initial packets - a long ALPN list, a post-  *)
+(*   quantum key share or padding make it span several)                    *)
+(*     -> InitialIn (x n: QuicMultiplexer::on_new_connection feeds the     *)
+(*        first one to the TLS stack, proceed_handshake the others, in any *)
+(*        order; the TLS stack knows the random only once it has seen the  *)
+(*        whole ClientHello, before that SSL_get_client_random yields zero)*)
+(*     -> Established (finalize_established_connection: handshake complete;*)
+(*        the peer address and the client random of THAT handshake known)  *)
 (*     -> Rules (Rules.tla), evaluated AFTER the handshake on QUIC         *)
 (*     -> channel -> [tunnel] session -> requests -> closed                *)
 (*                                                                         *)
-(* One action per stage boundary; each is a hook event of the real code.   *)
+(* One action per stage boundary; each is a hook event of the real code    *)
+(* (ClientHello is the client's own view, recorded by the harness;         *)
+(* InitialIn is not observed, its count is the client's).                  *)
 (* Properties (C04 "processes any request (QUIC)", C12 "on QUIC the value  *)
 (* is the one of the completed handshake", C16 gauges):                    *)
 (*  - the rules see the canonical peer address and exactly the random of   *)
-(*    the completed handshake, never "absent" and never another value;     *)
+(*    the ClientHello of the completed handshake, whatever the number of   *)
+(*    packets it took, never "absent" and never another value;             *)
 (*  - the verdict is the rule list's (first match; this module carries the *)
 (*    abstraction of Rules.tla for the rule shapes the harness configures: *)
 (*    a CIDR deny rule = a set of denied addresses, a masked random prefix *)
 (*    deny rule = a bound on the first octet);                             *)
 (*  - a denied connection processes no request and is answered nothing;    *)
 (*  - only a served tunnel connection holds the HTTP3 session gauge.       *)
+(*                                                                         *)
+(* ReadAtFirst = TRUE is the design that takes the random when the         *)
+(* connection object is created (after the first Initial packet): it must  *)
+(* violate HandshakeRandom (MCEndpointQuic.early.cfg).                     *)
 (***************************************************************************)
 EXTENDS Naturals, Sequences, FiniteSets, TLC
 
@@ -28,73 +42,103 @@ CONSTANTS Peers,        \* peer addresses as the socket reports them (strings)
           Canon(_),     \* canonical form of a peer address (IPv4-mapped -> IPv4)
           Randoms,      \* client randoms: records [hex |-> string, r0 |-> first octet]
           DenyIps,      \* canonical addresses a CIDR deny rule covers
-          DenyBelow     \* a masked-prefix deny rule: first octet < DenyBelow  (0 = no such rule)
+          DenyBelow,    \* a masked-prefix deny rule: first octet < DenyBelow  (0 = no such rule)
+          HelloSizes,   \* the numbers of Initial packets a ClientHello may span
+          ZeroRandom,   \* what the TLS stack reports as client random before it has seen a whole ClientHello
+          ReadAtFirst   \* FALSE: the random is read when the handshake is complete (the code); TRUE: after the first packet
 
 VARIABLES
-    stage,      \* "idle" | "established" | "ruled" | "serving" | "other" | "closed"
-    peer, random,
+    stage,      \* "idle" | "handshake" | "established" | "ruled" | "serving" | "other" | "closed"
+    hello,      \* the ClientHello of the handshake: [r |-> its random, pkts |-> Initial packets it spans] (the client's side)
+    fed,        \* how many of these packets the TLS stack of the endpoint has been fed
+    taken,      \* ReadAtFirst only: the value read when the connection object was created
+    peer, random,   \* what the multiplexer hands to on_new_quic_connection
     verdict,    \* "none" | "allow" | "deny"
     rulesOn,    \* deny rules are configured
     requests,   \* requests handed to the application on this connection
     gSessions,  \* gauge client_sessions{HTTP3}
     gTcp        \* gauge outbound_tcp_sockets
 
-vars == << stage, peer, random, verdict, rulesOn, requests, gSessions, gTcp >>
+vars == << stage, hello, fed, taken, peer, random, verdict, rulesOn, requests, gSessions, gTcp >>
 
 NoRandom == [hex |-> "", r0 |-> 0]
+NoHello == [r |-> NoRandom, pkts |-> 0]
 
 Init ==
-    /\ stage = "idle" /\ peer = "" /\ random = NoRandom /\ verdict = "none" /\ rulesOn \in BOOLEAN
+    /\ stage = "idle" /\ hello = NoHello /\ fed = 0 /\ taken = NoRandom
+    /\ peer = "" /\ random = NoRandom /\ verdict = "none" /\ rulesOn \in BOOLEAN
     /\ requests = 0 /\ gSessions = 0 /\ gTcp = 0
 
 \* what the configured rule list says (Rules.tla restricted to the shapes above; both rules deny, so their order is immaterial)
 Verdict(ip, r) == IF rulesOn /\ (ip \in DenyIps \/ r.r0 < DenyBelow) THEN "deny" ELSE "allow"
 
-\* QuicMultiplexer::listen returned a socket: the handshake is complete, on_new_quic_connection starts
-Established(a, r) ==
+\* SSL_get_client_random on the endpoint's side of the connection after f packets of the ClientHello
+TlsRandom(f) == IF f = hello.pkts THEN hello.r ELSE ZeroRandom
+
+\* the client sends the ClientHello of the handshake it is going to complete (after the stateless retry: the
+\* endpoint creates no connection for the token-less first attempt) in n Initial packets
+ClientHello(r, n) ==
     /\ stage \in {"idle", "closed"} /\ gTcp = 0 /\ gSessions = 0
-    /\ peer' = a /\ random' = r /\ verdict' = "none" /\ requests' = 0 /\ stage' = "established"
+    /\ hello' = [r |-> r, pkts |-> n] /\ fed' = 0 /\ taken' = NoRandom
+    /\ peer' = "" /\ random' = NoRandom /\ verdict' = "none" /\ requests' = 0 /\ stage' = "handshake"
     /\ UNCHANGED << rulesOn, gSessions, gTcp >>
+
+\* on_new_connection (fed = 0: quiche::accept + recv) / proceed_handshake (fed > 0): one more packet of the ClientHello
+InitialIn ==
+    /\ stage = "handshake" /\ fed < hello.pkts
+    /\ fed' = fed + 1
+    /\ taken' = (IF ReadAtFirst /\ fed = 0 THEN TlsRandom(1) ELSE taken)
+    /\ UNCHANGED << stage, hello, peer, random, verdict, rulesOn, requests, gSessions, gTcp >>
+
+\* QuicMultiplexer::listen returned a socket: the handshake is complete (which takes the whole ClientHello),
+\* finalize_established_connection reads the random, on_new_quic_connection starts
+Established(a, r) ==
+    /\ stage = "handshake" /\ fed = hello.pkts /\ gTcp = 0 /\ gSessions = 0
+    /\ r = (IF ReadAtFirst THEN taken ELSE TlsRandom(fed))
+    /\ peer' = a /\ random' = r /\ verdict' = "none" /\ requests' = 0 /\ stage' = "established"
+    /\ UNCHANGED << hello, fed, taken, rulesOn, gSessions, gTcp >>
 
 \* evaluate_connection_rules: canonical address, the handshake's random, the rule list's verdict
 RulesEval(ip, hex, v) ==
     /\ stage = "established"
     /\ ip = Canon(peer) /\ hex = random.hex /\ v = Verdict(ip, random)
     /\ verdict' = v /\ stage' = (IF v = "allow" THEN "ruled" ELSE "closed")
-    /\ UNCHANGED << peer, random, rulesOn, requests, gSessions, gTcp >>
+    /\ UNCHANGED << hello, fed, taken, peer, random, rulesOn, requests, gSessions, gTcp >>
 
 \* on_tunnel_request: ClientSessionsCounter::new (tunnel channel)
 SessionOpen ==
     /\ stage = "ruled" /\ gSessions' = gSessions + 1 /\ stage' = "serving"
-    /\ UNCHANGED << peer, random, verdict, rulesOn, requests, gTcp >>
+    /\ UNCHANGED << hello, fed, taken, peer, random, verdict, rulesOn, requests, gTcp >>
 
 \* Http3Codec::on_request: a request is handed to the tunnel / ping / speedtest / reverse-proxy handler.
 \* The ping, speedtest and reverse-proxy channels hold no session gauge: the first request reveals them.
 Request ==
     /\ stage \in {"serving", "ruled", "other"} /\ requests' = requests + 1
     /\ stage' = (IF stage = "ruled" THEN "other" ELSE stage)
-    /\ UNCHANGED << peer, random, verdict, rulesOn, gSessions, gTcp >>
+    /\ UNCHANGED << hello, fed, taken, peer, random, verdict, rulesOn, gSessions, gTcp >>
 
 TcpOpen ==
     /\ stage \in {"serving", "other"} /\ gTcp' = gTcp + 1
-    /\ UNCHANGED << stage, peer, random, verdict, rulesOn, requests, gSessions >>
+    /\ UNCHANGED << stage, hello, fed, taken, peer, random, verdict, rulesOn, requests, gSessions >>
 
 TcpClose ==
     /\ gTcp > 0 /\ gTcp' = gTcp - 1
-    /\ UNCHANGED << stage, peer, random, verdict, rulesOn, requests, gSessions >>
+    /\ UNCHANGED << stage, hello, fed, taken, peer, random, verdict, rulesOn, requests, gSessions >>
 
 SessionClose ==
     /\ stage = "serving" /\ gSessions > 0 /\ gSessions' = gSessions - 1 /\ stage' = "closed"
-    /\ UNCHANGED << peer, random, verdict, rulesOn, requests, gTcp >>
+    /\ UNCHANGED << hello, fed, taken, peer, random, verdict, rulesOn, requests, gTcp >>
 
-\* the connection ends without a session (client gone, SNI credentials rejected, other channels)
+\* the connection ends without a session (handshake abandoned, client gone, SNI credentials rejected, other channels)
 Drop ==
-    /\ stage \in {"established", "ruled", "other"} /\ stage' = "closed"
-    /\ UNCHANGED << peer, random, verdict, rulesOn, requests, gSessions, gTcp >>
+    /\ stage \in {"handshake", "established", "ruled", "other"} /\ stage' = "closed"
+    /\ UNCHANGED << hello, fed, taken, peer, random, verdict, rulesOn, requests, gSessions, gTcp >>
 
 Next ==
-    \/ \E a \in Peers, r \in Randoms : Established(a, r)
-    \/ \E ip \in { Canon(a) : a \in Peers }, r \in Randoms, v \in {"allow", "deny"} : RulesEval(ip, r.hex, v)
+    \/ \E r \in Randoms, n \in HelloSizes : ClientHello(r, n)
+    \/ InitialIn
+    \/ \E a \in Peers, r \in Randoms \cup {ZeroRandom} : Established(a, r)
+    \/ \E ip \in { Canon(a) : a \in Peers }, r \in Randoms \cup {ZeroRandom}, v \in {"allow", "deny"} : RulesEval(ip, r.hex, v)
     \/ SessionOpen \/ Request \/ TcpOpen \/ TcpClose \/ SessionClose \/ Drop
 
 Spec == Init /\ [][Next]_vars
@@ -103,8 +147,10 @@ Spec == Init /\ [][Next]_vars
 \* a denied connection processes no request (C04, QUIC clause)
 NoRequestUnlessAllowed == requests > 0 => verdict = "allow"
 DeniedIsClosed == verdict = "deny" => stage = "closed"
-\* the verdict is the rule list's, on the canonical address and the handshake's random (C04, C12)
-VerdictIsRules == verdict # "none" => verdict = Verdict(Canon(peer), random)
+\* the random handed on is the one of the ClientHello of the completed handshake, whatever its size (C12, QUIC clause)
+HandshakeRandom == (stage \in {"established", "ruled", "serving", "other"} \/ verdict # "none") => random = hello.r
+\* the verdict is the rule list's, on the canonical address and the ClientHello's random (C04, C12)
+VerdictIsRules == verdict # "none" => verdict = Verdict(Canon(peer), hello.r)
 SessionGauge == gSessions = (IF stage = "serving" THEN 1 ELSE 0)
 TcpOnlyServed == (gTcp > 0 /\ stage # "closed") => stage \in {"serving", "other"}
 =============================================================================
